@@ -4,7 +4,7 @@
 (* molecules), so conversion factors and expected results stay exact and never        *)
 (* overflow TLC's 32-bit integers.  The table below is transcribed from the SI       *)
 (* definitions, not from units.py.                                                    *)
-EXTENDS Integers, Sequences, Rat
+EXTENDS Integers, Sequences, Rat, TLC
 
 Mono(n, d, a, b, c) == LET q == Norm(n, d) IN [num |-> q[1], den |-> q[2], p10 |-> a, p6 |-> b, pNA |-> c]
 MOne  == Mono(1, 1, 0, 0, 0)
@@ -29,7 +29,9 @@ AsRat(x)   == IF x.num = 0 THEN Zero
 MAdd(x, y) == IF x.num = 0 THEN y ELSE IF y.num = 0 THEN x
               ELSE IF x.p10 = y.p10 /\ x.p6 = y.p6 /\ x.pNA = y.pNA
                    THEN LET s == RAdd(<<x.num, x.den>>, <<y.num, y.den>>) IN MCanon(Mono(s[1], s[2], x.p10, x.p6, x.pNA))
-                   ELSE MRat(RAdd(AsRat(x), AsRat(y)))
+                   ELSE IF x.p6 = 0 /\ x.pNA = 0 /\ y.p6 = 0 /\ y.pNA = 0 /\ x.p10 \in -6..6 /\ y.p10 \in -6..6
+                   THEN MRat(RAdd(AsRat(x), AsRat(y)))
+                   ELSE Assert(FALSE, <<"MAdd of monomials with different scales", x, y>>)
 Addable(x, y) == SameScale(x, y) \/ (Rational(x) /\ Rational(y))
 
 (* ------------------------- the SI table ------------------------------------ *)
